@@ -13,7 +13,7 @@ variable {κ : Type} [DecidableEq κ]
 
 /-- the result stored for a key-state whose command produced `ovs` (`nc`: no-cache / cache-disabled path) -/
 def mkRes (nc : Bool) (ks : KeyState κ) (k : κ) (ovs : Outs) : Result κ :=
-  { oh := if nc then .nocache ovs else if ks.outs.isEmpty then .self k else .outs ovs,
+  { oh := if ks.outs.isEmpty then .self k else if nc then .nocache ovs else .outs ovs,
     outs := if nc then [] else ovs }
 
 /-- **the backbone invariant**: every stored result is what the command returns on the view its key-state encodes -/
@@ -34,8 +34,10 @@ structure AdmSpec (κ : Type) where
   ks : KeyState κ → Prop
   tgt : Target → Prop
   val : Val → Prop
+  /-- which dependency output hashes occur (the key only has to separate key-states built from these) -/
+  oh : OH κ → Prop
 
-def AdmSpec.triv : AdmSpec κ := ⟨fun _ => True, fun _ => True, fun _ => True⟩
+def AdmSpec.triv : AdmSpec κ := ⟨fun _ => True, fun _ => True, fun _ => True, fun _ => True⟩
 
 /-- `CacheSound` relative to an admissibility specification: the key-state behind every entry is admissible -/
 def CacheSoundK (P : Params κ) (A : AdmSpec κ) (c : Cache κ) : Prop :=
@@ -52,10 +54,23 @@ structure GoodK (P : Params κ) (A : AdmSpec κ) : Prop where
   complete : ∀ c v, (P.run c v).exit0 = true → (P.run c v).outs.map (·.1) = c.writes
   hermetic : ∀ c v, (P.run c v).sets = []
   admKs : ∀ t fs (ohs : List (OH κ)), A.tgt t → (∀ p ∈ t.inputs, ∀ v, fs p = some v → A.val v) →
-    ohs.length = t.hdeps.length → A.ks (keyState t fs ohs)
+    (∀ oh ∈ ohs, A.oh oh) → ohs.length = t.hdeps.length → A.ks (keyState t fs ohs)
+  /-- key-states of different targets have different keys (needs no admissibility of the dependency hashes:
+      the label is framed into the key by itself) -/
+  sepLbl : ∀ t fs (ohs : List (OH κ)) t' fs' (ohs' : List (OH κ)), A.tgt t → A.tgt t' →
+    (∀ p ∈ t.inputs, ∀ v, fs p = some v → A.val v) → (∀ p ∈ t'.inputs, ∀ v, fs' p = some v → A.val v) →
+    ohs.length = t.hdeps.length → ohs'.length = t'.hdeps.length →
+    P.K (keyState t fs ohs) = P.K (keyState t' fs' ohs') → t.label = t'.label
+  /-- the output hash a successful run of an admissible key-state exposes to dependants is admissible again -/
+  ohOut : ∀ ks, A.ks ks → (P.run ks.cmd (viewOf ks)).exit0 = true → ∀ nc : Bool,
+    A.oh (mkRes nc ks (P.K ks) (P.run ks.cmd (viewOf ks)).outs).oh
 
 theorem GoodK_of_Good {P : Params κ} (h : Good P) : GoodK P AdmSpec.triv :=
-  ⟨fun a b _ _ hk => by cases h.inj a b hk; exact ⟨rfl, rfl, rfl⟩, h.complete, h.hermetic, fun _ _ _ _ _ _ => trivial⟩
+  ⟨fun a b _ _ hk => by cases h.inj a b hk; exact ⟨rfl, rfl, rfl⟩, h.complete, h.hermetic, fun _ _ _ _ _ _ _ => trivial,
+   fun t fs ohs t' fs' ohs' _ _ _ _ _ _ hk => by
+     have := h.inj _ _ hk
+     exact congrArg KeyState.label this,
+   fun _ _ _ _ => trivial⟩
 
 theorem cacheSoundK_triv {P : Params κ} {c : Cache κ} : CacheSoundK P AdmSpec.triv c ↔ CacheSound P c := by
   constructor
@@ -138,6 +153,35 @@ theorem depsOk_mem {st : Lbl → Option (TStat κ)} {deps : List Lbl} (h : depsO
   split at this
   · rename_i ds hds; exact ⟨ds, hds, this⟩
   · cases this
+
+/-- the labels paired with the dependency hashes do not change what the key-state's view contains -/
+theorem zip_flatMap_snd {α β γ : Type} (f : β → List γ) : ∀ (ls : List α) (l : List β), l.length = ls.length →
+    (ls.zip l).flatMap (fun d => f d.2) = l.flatMap f
+  | [], [], _ => rfl
+  | [], _ :: _, h => by simp at h
+  | _ :: _, [], h => by simp at h
+  | a :: ls, b :: l, h => by
+    simp only [List.zip_cons_cons, List.flatMap_cons]
+    rw [zip_flatMap_snd f ls l (by simpa using h)]
+
+theorem viewOf_keyState (t : Target) (fs : FS) (ohs : List (OH κ)) (h : ohs.length = t.hdeps.length) :
+    viewOf (keyState t fs ohs) = { inputs := t.inputs.map (fun p => (p, fs p)), deps := ohs.flatMap ohVals } := by
+  simp only [viewOf, keyState, zip_flatMap_snd ohVals t.hdeps ohs h]
+
+/-- the dependency hashes folded into a key are admissible if every available one is -/
+theorem depOhs_adm {A : AdmSpec κ} {st : Lbl → Option (TStat κ)} : ∀ {deps : List Lbl} {ohs : List (OH κ)}, depOhs st deps = some ohs →
+    (∀ d ∈ deps, ∀ oh, ohOf st d = some oh → A.oh oh) → ∀ oh ∈ ohs, A.oh oh
+  | [], ohs, h, _ => by simp [depOhs] at h; subst h; intro oh ho; cases ho
+  | d :: ds, ohs, h, ha => by
+    simp only [depOhs] at h
+    split at h
+    · rename_i a r ha' hr
+      simp only [Option.some.injEq] at h; subst h
+      intro oh ho
+      rcases List.mem_cons.1 ho with rfl | ho
+      · exact ha d (by simp) _ ha'
+      · exact depOhs_adm hr (fun d' hd' => ha d' (by simp [hd'])) oh ho
+    · cases h
 
 /-- dependencies fine ⇒ their hashes are available and the view read from the workspace is the view the key-state encodes -/
 theorem view_eq {defs : Defs} {s : BState κ} {deps : List Lbl} (hok : depsOk s.st deps = true) (hdd : DepsDone defs s deps) :
@@ -243,7 +287,8 @@ variable {κ : Type} [DecidableEq κ]
 structure InvK (P : Params κ) (A : AdmSpec κ) (defs : Defs) (order : List Lbl) (s : BState κ) (c : Spec.CState) (done : List Lbl) : Prop where
   sound : CacheSoundK P A s.cache
   inOk : ∀ l ∈ order, ∀ t, defs l = some t → ∀ p ∈ t.inputs, ∀ v, s.fs p = some v → A.val v
-  dep : ∀ l ∈ done, ∀ ts, s.st l = some ts → ts.ok = true → ∃ t oh, defs l = some t ∧ ts.oh = some oh ∧ OhMatches t oh s.fs
+  dep : ∀ l ∈ done, ∀ ts, s.st l = some ts → ts.ok = true →
+    ∃ t oh, defs l = some t ∧ ts.oh = some oh ∧ OhMatches t oh s.fs ∧ A.oh oh
   fsOff : ∀ p, (∀ l ∈ order, ∀ t, defs l = some t → p ∉ outPaths t) → s.fs p = c.fs p
   okIff : ∀ l ∈ done, (∃ ts, s.st l = some ts ∧ ts.ok = true) ↔ c.ok l = some true
   fsOut : ∀ l ∈ done, c.ok l = some true → ∀ t, defs l = some t → ∀ p ∈ outPaths t, s.fs p = c.fs p
@@ -327,13 +372,15 @@ theorem step_invK {P : Params κ} {A : AdmSpec κ} (hG : GoodK P A) (hfx : P.fx.
   -- paths of other targets are not touched by t
   have hdisj : ∀ l' ∈ pre, ∀ t', defs l' = some t' → ∀ p ∈ outPaths t', p ∉ outPaths t :=
     fun l' hl' t' ht' p hp => hwf.outsDisj l' (hpo l' hl') l hlo (hne l' hl') t' t ht' ht p hp
-  have hDD : DepsDone defs s t.deps := fun d hd ts hts hk => hI.dep d (hdeps d hd) ts hts hk
+  have hDD : DepsDone defs s t.deps := fun d hd ts hts hk => by
+    obtain ⟨dt, oh, h1, h2, h3, _⟩ := hI.dep d (hdeps d hd) ts hts hk
+    exact ⟨dt, oh, h1, h2, h3⟩
   obtain ⟨fsc, hc', hfsc, hfscok⟩ := cleanTarget_spec P.run defs t c
   have hdi := depsOk_iff hI t hdeps
   -- generic re-establishment from a summary of the step
   have finish : ∀ (s' : BState κ) (ts' : TStat κ),
       s'.st = upd s.st l (some ts') → (∀ p, p ∉ outPaths t → s'.fs p = s.fs p) → (∀ p, p ∉ outPaths t → fsc p = c.fs p) →
-      CacheSoundK P A s'.cache → (ts'.ok = true → ∃ oh, ts'.oh = some oh ∧ OhMatches t oh s'.fs) →
+      CacheSoundK P A s'.cache → (ts'.ok = true → ∃ oh, ts'.oh = some oh ∧ OhMatches t oh s'.fs ∧ A.oh oh) →
       ts'.ok = cleanOk P.run defs t c → (ts'.ok = true → ∀ p ∈ outPaths t, s'.fs p = fsc p) →
       InvK P A defs order s' (Spec.cleanTarget P.run defs t c) (pre ++ [l]) := by
     intro s' ts' hst hfs hfc hsound hoh hokeq hout
@@ -345,8 +392,8 @@ theorem step_invK {P : Params κ} {A : AdmSpec κ} (hG : GoodK P A) (hfx : P.fx.
     · intro l' hl' ts hts hk
       rcases List.mem_append.1 hl' with hl' | hl'
       · rw [hst, upd_other _ _ _ _ (hne l' hl')] at hts
-        obtain ⟨t', oh, ht', hoh', hm'⟩ := hI.dep l' hl' ts hts hk
-        exact ⟨t', oh, ht', hoh', OhMatches_congr (fun p hp => (hfs p (hdisj l' hl' t' ht' p hp)).symm) hm'⟩
+        obtain ⟨t', oh, ht', hoh', hm', hao⟩ := hI.dep l' hl' ts hts hk
+        exact ⟨t', oh, ht', hoh', OhMatches_congr (fun p hp => (hfs p (hdisj l' hl' t' ht' p hp)).symm) hm', hao⟩
       · simp only [List.mem_singleton] at hl'; subst hl'
         rw [hst, upd_same] at hts
         simp only [Option.some.injEq] at hts; subst hts
@@ -394,7 +441,8 @@ theorem step_invK {P : Params κ} {A : AdmSpec κ} (hG : GoodK P A) (hfx : P.fx.
     intro hok
     obtain ⟨ohs, h1, h2⟩ := view_eq hok hDD
     refine ⟨ohs, by rw [hhd]; exact h1, ?_, view_agree hI hwf l hlo t ht hdeps hpo hok, by rw [← hdi]; exact hok⟩
-    simp only [viewOf, keyState, viewAt, h2]
+    rw [viewOf_keyState t s.fs ohs (by rw [hhd]; exact depOhs_length h1)]
+    simp only [viewAt, h2]
   -- what the command returns, and consequences of exit 0
   have runFacts : (P.run t.cmd (viewAt defs t s.fs)).exit0 = true → viewAt defs t s.fs = viewAt defs t c.fs →
       (P.run t.cmd (viewAt defs t s.fs)).outs.map (·.1) = t.outs ∧
@@ -427,8 +475,16 @@ theorem step_invK {P : Params κ} {A : AdmSpec κ} (hG : GoodK P A) (hfx : P.fx.
       rw [outPaths, ← hmap, List.map_map] at hp; exact hp
     · intro ov hov
       rw [fsA_eqK hG]; exact writeOuts_get _ _ hnod' ov hov
-  have hadm : ∀ ohs : List (OH κ), depOhs s.st t.hdeps = some ohs → A.ks (keyState t s.fs ohs) :=
-    fun ohs ho => hG.admKs t s.fs ohs (hT l hlo t ht) (hI.inOk l hlo t ht) (depOhs_length ho)
+  have hadm : depsOk s.st t.deps = true → ∀ ohs : List (OH κ), depOhs s.st t.hdeps = some ohs → A.ks (keyState t s.fs ohs) := by
+    intro hok ohs ho
+    refine hG.admKs t s.fs ohs (hT l hlo t ht) (hI.inOk l hlo t ht) (depOhs_adm ho ?_) (depOhs_length ho)
+    intro d hd oh hoh
+    rw [hhd] at hd
+    obtain ⟨ts, hts, hk⟩ := depsOk_mem hok d hd
+    obtain ⟨_, oh', _, hoh', _, hao⟩ := hI.dep d (hdeps d hd) ts hts hk
+    simp only [ohOf, hts] at hoh
+    rw [hoh] at hoh'; simp only [Option.some.injEq] at hoh'; subst hoh'
+    exact hao
   have hcase := buildTarget_all P cfg defs fuel t s hm
   cases hcase with
   | depFailed h e =>
@@ -444,7 +500,7 @@ theorem step_invK {P : Params κ} {A : AdmSpec κ} (hG : GoodK P A) (hfx : P.fx.
     obtain ⟨r, fs', hr, _, _, _, hchk, hrest, hs1⟩ := tryHit_all_some hm e
     obtain ⟨hval, _, hfs'⟩ := restore_some hrest
     obtain ⟨ks, hka, hK, hkw, hkx, nc, hres⟩ := hI.sound _ r hr
-    obtain ⟨_, hemp, hrun⟩ := hG.inj ks (keyState t s.fs ohs') hka (hadm ohs' h1) hK
+    obtain ⟨_, hemp, hrun⟩ := hG.inj ks (keyState t s.fs ohs') hka (hadm h ohs' h1) hK
     have hview' : viewOf (keyState t s.fs ohs') = viewAt defs t s.fs := hview
     have hrun' : P.run ks.cmd (viewOf ks) = P.run t.cmd (viewAt defs t s.fs) := by rw [hrun, hview']; rfl
     rw [hrun'] at hkx hres
@@ -470,16 +526,23 @@ theorem step_invK {P : Params κ} {A : AdmSpec κ} (hG : GoodK P A) (hfx : P.fx.
       (by rw [hs1, ← hlab]) ?_ hfc (by rw [hs1]; exact hI.sound) ?_ ?_ ?_
     · intro p hp; rw [hsfs]; exact fsA_offK hG defs t s.fs hwr p hp hkx
     · intro _
-      refine ⟨r.oh, rfl, ?_⟩
+      have hao : A.oh r.oh := by
+        have := hG.ohOut (keyState t s.fs ohs') (hadm h ohs' h1) (by rw [hview']; exact hkx) nc
+        rw [hview'] at this
+        rw [hres]; exact this
+      refine ⟨r.oh, rfl, ?_, hao⟩
       rw [hsfs, hres]
-      cases nc with
-      | true => exact ⟨hmap, hget⟩
-      | false =>
-        by_cases he : t.outs.isEmpty = true
-        · have : (mkRes false (keyState t s.fs ohs') (P.K (keyState t s.fs ohs')) (P.run t.cmd (viewAt defs t s.fs)).outs).oh
-              = OH.self (P.K (keyState t s.fs ohs')) := by simp [mkRes, keyState, he]
-          rw [this]; exact List.isEmpty_iff.1 he
-        · have : (mkRes false (keyState t s.fs ohs') (P.K (keyState t s.fs ohs')) (P.run t.cmd (viewAt defs t s.fs)).outs).oh
+      by_cases he : t.outs.isEmpty = true
+      · have : (mkRes nc (keyState t s.fs ohs') (P.K (keyState t s.fs ohs')) (P.run t.cmd (viewAt defs t s.fs)).outs).oh
+            = OH.self (P.K (keyState t s.fs ohs')) := by simp [mkRes, keyState, he]
+        rw [this]; exact List.isEmpty_iff.1 he
+      · cases nc with
+        | true =>
+          have : (mkRes true (keyState t s.fs ohs') (P.K (keyState t s.fs ohs')) (P.run t.cmd (viewAt defs t s.fs)).outs).oh
+              = OH.nocache (P.run t.cmd (viewAt defs t s.fs)).outs := by simp [mkRes, keyState, he]
+          rw [this]; exact ⟨hmap, hget⟩
+        | false =>
+          have : (mkRes false (keyState t s.fs ohs') (P.K (keyState t s.fs ohs')) (P.run t.cmd (viewAt defs t s.fs)).outs).oh
               = OH.outs (P.run t.cmd (viewAt defs t s.fs)).outs := by simp [mkRes, keyState, he]
           rw [this]; exact ⟨hmap, hget⟩
     · show true = cleanOk P.run defs t c
@@ -506,19 +569,23 @@ theorem step_invK {P : Params κ} {A : AdmSpec κ} (hG : GoodK P A) (hfx : P.fx.
       by_cases hk : k' = P.K (keyState t s.fs ohs')
       · subst hk
         rw [upd_same] at hr'; simp only [Option.some.injEq] at hr'; subst hr'
-        refine ⟨keyState t s.fs ohs', hadm ohs' h1, rfl, hwr, by rw [hview]; exact hx, (t.noCache || !cfg.enableCache), ?_⟩
+        refine ⟨keyState t s.fs ohs', hadm h ohs' h1, rfl, hwr, by rw [hview]; exact hx, (t.noCache || !cfg.enableCache), ?_⟩
         have hk2 : (P.run (keyState t s.fs ohs').cmd (viewOf (keyState t s.fs ohs'))).outs = ovs := by
           rw [hview, hovs]; rfl
         rw [hk2]; rfl
       · rw [upd_other _ _ _ _ hk] at hr'; exact hI.sound k' r' hr'
     · intro _
-      refine ⟨_, rfl, ?_⟩
+      have hk2 : (P.run (keyState t s.fs ohs').cmd (viewOf (keyState t s.fs ohs'))).outs = ovs := by
+        rw [hview, hovs]; rfl
+      have hao := hG.ohOut (keyState t s.fs ohs') (hadm h ohs' h1) (by rw [hview]; exact hx) (t.noCache || !cfg.enableCache)
+      rw [hk2] at hao
+      refine ⟨_, rfl, ?_, hao⟩
       obtain ⟨hm1, hm2⟩ := collect_some hcol
       simp only [ohFor]
       split
-      · exact ⟨hm1, hm2⟩
+      · rename_i he; exact List.isEmpty_iff.1 he
       · split
-        · rename_i he; exact List.isEmpty_iff.1 he
+        · exact ⟨hm1, hm2⟩
         · exact ⟨hm1, hm2⟩
     · intro _ p hp; rw [hfs, hfscok hck]; exact hag p hp
   | failed ohs s2 h h2 h3 e e2 =>
@@ -595,8 +662,12 @@ structure Inv (P : Params κ) (defs : Defs) (order : List Lbl) (s : BState κ) (
 
 theorem inv_iff_invK {P : Params κ} {defs : Defs} {order : List Lbl} {s : BState κ} {c : Spec.CState} {done : List Lbl} :
     Inv P defs order s c done ↔ InvK P AdmSpec.triv defs order s c done :=
-  ⟨fun h => ⟨cacheSoundK_triv.2 h.sound, fun _ _ _ _ _ _ _ _ => trivial, h.dep, h.fsOff, h.okIff, h.fsOut⟩,
-   fun h => ⟨cacheSoundK_triv.1 h.sound, h.dep, h.fsOff, h.okIff, h.fsOut⟩⟩
+  ⟨fun h => ⟨cacheSoundK_triv.2 h.sound, fun _ _ _ _ _ _ _ _ => trivial,
+      fun l hl ts hts hk => by obtain ⟨t, oh, h1, h2, h3⟩ := h.dep l hl ts hts hk; exact ⟨t, oh, h1, h2, h3, trivial⟩,
+      h.fsOff, h.okIff, h.fsOut⟩,
+   fun h => ⟨cacheSoundK_triv.1 h.sound,
+      fun l hl ts hts hk => by obtain ⟨t, oh, h1, h2, h3, _⟩ := h.dep l hl ts hts hk; exact ⟨t, oh, h1, h2, h3⟩,
+      h.fsOff, h.okIff, h.fsOut⟩⟩
 
 theorem step_inv {P : Params κ} (hG : Good P) (hfx : P.fx.gateChecks = true) {cfg : Cfg} (hm : cfg.minimal = false)
     {defs : Defs} {order : List Lbl} (hwf : WF defs order) (fuel : Nat)
